@@ -355,6 +355,16 @@ class HistogramBase(abc.ABC):
         if self._missed is not None:
             self._missed = self._missed.astype(value)
 
+    def _match_dtype(self, values: np.ndarray) -> np.ndarray:
+        """Keep `dtype` the element type of the contents when values of another type are assigned.
+
+        The histogram is widened if necessary (as in arithmetic operations), never narrowed.
+        """
+        if getattr(self, "_dtype", None) is None or values.dtype == self._dtype:
+            return values
+        self._coerce_dtype(values.dtype)
+        return values.astype(self._dtype)
+
     def _coerce_dtype(self, other_dtype: DTypeLike) -> None:
         """Possibly change the bin content type to allow correct operations with other operand.
 
@@ -391,6 +401,7 @@ class HistogramBase(abc.ABC):
                 warnings.warn("Negative frequencies in the histogram.")
             else:
                 raise ValueError("Cannot have negative frequencies.")
+        frequencies = self._match_dtype(frequencies)
         self._frequencies = frequencies
 
     @property
@@ -442,7 +453,7 @@ class HistogramBase(abc.ABC):
             raise ValueError("Square errors must have same dimension as bins.")
         if np.any(array < 0):
             raise ValueError("Cannot have negative square errors.")
-        self._errors2 = array
+        self._errors2 = self._match_dtype(array)
 
     @property
     def errors(self) -> np.ndarray:
